@@ -1,0 +1,22 @@
+//go:build verif
+// +build verif
+
+package graph
+
+// This file is only built with the "verif" tag. It exposes observation
+// points for the verification harness and changes no behavior.
+
+// VerifPopHook, when non-nil, is called by Dijkstra for every vertex taken
+// off the priority queue, with the vertex hashcode and its distance.
+var VerifPopHook func(v interface{}, distance int32)
+
+func verifPop(v interface{}, distance int32) {
+	if h := VerifPopHook; h != nil {
+		h(v, distance)
+	}
+}
+
+// VerifDump returns the three internal maps of the graph (not copies).
+func (g *Graph) VerifDump() (out, in map[interface{}]map[interface{}]int, hash map[interface{}]Vertex) {
+	return g.adjacencyOut, g.adjacencyIn, g.hash
+}
